@@ -567,7 +567,7 @@ func TestCheck(t *testing.T) {
 	r.Exhaustive("graphs on {self, a, b, d (+feeder)}: own links to a, b and links a->b, b->a, a->d, b->d each absent / live / lost early / lost late")
 
 	// larger random graphs (nine arcs incl. node c) and extra updates
-	r.Group("graphs-random", r.Pick(600, 60000), func(i int, rng *report.Rand) {
+	r.Group("graphs-random", r.Pick(600, 15000), func(i int, rng *report.Rand) {
 		st := make([]int, 9)
 		for k := range st {
 			st[k] = rng.Intn(4)
